@@ -778,24 +778,52 @@ func concurrentAds(c *Ctx, im *Impl, cf *CaseFile) {
 }
 
 func periodicVsClose(c *Ctx, im *Impl) {
+	var slow int32 = 1
 	logger.RegisterLogger(func(level int, format string, v ...interface{}) {
-		if strings.HasPrefix(format, "Sending service advertisement") {
+		if atomic.LoadInt32(&slow) == 1 && strings.HasPrefix(format, "Sending service advertisement") {
 			time.Sleep(300 * time.Microsecond)
 		}
 	})
 	defer logger.RegisterLogger(nil)
 	r := c.Rng
-	rounds := 2
+	rounds := 4
 	if c.Thorough() {
-		rounds = 10
+		rounds = 16
 	}
 	for round := 0; round < rounds; round++ {
+		// two kinds of rounds.  Even: a slow sender (each message delayed) and a 12 ms period - a long time
+		// between reading the listener registry and sending.  Odd: re-advertisement running almost
+		// continuously (1 ms period) over many listeners and closes every few hundred microseconds - whatever
+		// Close does must be one step with respect to the sender's look at the registry.
+		fast := round%2 == 1
+		period, nlisten := 12*time.Millisecond, 6
+		atomic.StoreInt32(&slow, 1)
+		if fast {
+			period, nlisten = time.Millisecond, 24
+			atomic.StoreInt32(&slow, 0)
+		}
 		ctx, cancel := context.WithCancel(context.Background())
-		n := netceptor.NewWithConsts(ctx, "owner", 16384, time.Hour, 12*time.Millisecond, time.Hour, 30, time.Hour)
+		n := netceptor.NewWithConsts(ctx, "owner", 16384, time.Hour, period, time.Hour, 30, time.Hour)
 		tap, _ := n.VerifAddConn("tap", 1, 1<<16)
+		var tapped [][]byte
+		var tapMu sync.Mutex
+		tapDone := make(chan struct{})
+		go func() { // collect while the round runs: the fast rounds would fill any buffer
+			defer close(tapDone)
+			for {
+				select {
+				case mm := <-tap:
+					tapMu.Lock()
+					tapped = append(tapped, mm)
+					tapMu.Unlock()
+				case <-ctx.Done():
+					return
+				}
+			}
+		}()
 		open := map[string]netceptor.PacketConner{}
 		next := 0
-		for i := 0; i < 6; i++ {
+		for i := 0; i < nlisten; i++ {
 			name := fmt.Sprintf("p%d", next)
 			next++
 			if pc, err := n.ListenPacketAndAdvertise(name, map[string]string{"b": "1"}); err == nil {
@@ -805,7 +833,11 @@ func periodicVsClose(c *Ctx, im *Impl) {
 		deadline := time.Now().Add(600 * time.Millisecond)
 		closed := 0
 		for time.Now().Before(deadline) {
-			time.Sleep(time.Duration(200+r.Intn(2500)) * time.Microsecond)
+			if fast {
+				time.Sleep(time.Duration(100+r.Intn(500)) * time.Microsecond)
+			} else {
+				time.Sleep(time.Duration(200+r.Intn(2500)) * time.Microsecond)
+			}
 			for name, pc := range open {
 				_ = pc.Close()
 				delete(open, name)
@@ -820,9 +852,11 @@ func periodicVsClose(c *Ctx, im *Impl) {
 		}
 		time.Sleep(40 * time.Millisecond)
 		cancel()
+		<-tapDone
+		tapped = append(tapped, Drain(tap)...)
 		cancelAt := map[string]time.Time{}
 		var ads []adMsg
-		for _, m := range Drain(tap) {
+		for _, m := range tapped {
 			if len(m) == 0 || m[0] != netceptor.MsgTypeServiceAdvertisement {
 				continue
 			}
@@ -848,6 +882,6 @@ func periodicVsClose(c *Ctx, im *Impl) {
 		}
 		im.Hist("periodic-vs-close:round")
 		im.Extra["periodic_ads_observed"] = len(ads)
-		im.Count(fmt.Sprintf("periodic-vs-close %d closed=%d ads=%d", round, closed, len(ads)), closed > 20 && len(ads) > 50)
+		im.Count(fmt.Sprintf("periodic-vs-close %d fast=%v closed=%d ads=%d", round, fast, closed, len(ads)), closed > 20 && len(ads) > 50)
 	}
 }
